@@ -13,6 +13,12 @@ Record reader_in := {
   r_kind : skind; r_data0 : list N; r_pos0 : nat; r_seek : seekarg; r_chunk : nat; r_buffer : bool;
   r_data1 : list N; r_pos1 : nat }.
 
+(* gathering a detail whose callback serves a mutable Python list (or, sl_tuple, an
+   immutable tuple made from it): the list holds sl_buf when the copy is made and
+   is then mutated by sl_ops *)
+Inductive lop := LAppend (c : chunk) | LClear | LReplace (i : nat) (c : chunk).
+Record snaplist_in := { sl_tuple : bool; sl_buf : list chunk; sl_ops : list lop }.
+
 Inductive input :=
 | IText (s : list N)                        (* text_content(s), s a list of code points *)
 | IJson (dumped : list N)                   (* json_content(d); dumped = json.dumps(d), the oracle's answer *)
@@ -20,6 +26,7 @@ Inductive input :=
 | ISplits (charset : option str) (data : list N)  (* text/plain[;charset] content over EVERY split of data *)
 | IReader (r : reader_in)
 | ISnap (r : reader_in)                     (* _copy_content / gather_details of an unbuffered content (r_buffer unused) *)
+| ISnapList (r : snaplist_in)               (* ... of a content over an in-memory list *)
 | IEq (ta : ctype) (ca : list chunk) (tb : ctype) (cb : list chunk)
 | IMime (ct : ctype).                       (* _make_content_type(repr(ct)) *)
 
@@ -35,6 +42,7 @@ Inductive obs :=
 | OReader (created : option exn) (read_at_create : bool)
           (it1 : bres) (read1 : bool) (it2 : bres) (read2 : bool)
 | OSnap (copied : option exn) (same_type : bool) (c1 c2 : bres) (read_after : bool) (orig : bres)
+| OSnapList (same_type : bool) (c1 c2 : bres) (orig : bres)
 | OEq (eq ne : bool)
 | OMime (echo : ctype) (r : res ctype perr).    (* the content type that went in, and what came back *)
 
@@ -164,6 +172,21 @@ Definition snap_okb (r : reader_in) (copied : option exn) (same : bool) (c1 c2 :
   | _, _ => false
   end.
 
+(* list.append(c) / list.clear() / list[i] = c *)
+Definition apply_op (b : list chunk) (o : lop) : list chunk :=
+  match o with
+  | LAppend c => b ++ [c]
+  | LClear => []
+  | LReplace i c => if Nat.ltb i (length b) then firstn i b ++ c :: skipn (S i) b else b
+  end.
+Definition apply_ops (ops : list lop) (b : list chunk) : list chunk := fold_left apply_op ops b.
+
+(* the copy keeps the bytes of gathering time whatever happens to the source list afterwards;
+   the original keeps serving the list as it is now *)
+Definition snaplist_okb (r : snaplist_in) (same : bool) (c1 c2 orig : bres) : bool :=
+  same && joined_okb c1 (Ok (concat (sl_buf r))) && joined_okb c2 (Ok (concat (sl_buf r)))
+  && joined_okb orig (Ok (concat (if sl_tuple r then sl_buf r else apply_ops (sl_ops r) (sl_buf r)))).
+
 Definition sum_runs {A} (l : list (A * nat)) : nat := fold_right (fun p a => snd p + a) 0 l.
 
 Definition spec_okb (i : input) (o : obs) : bool :=
@@ -179,6 +202,7 @@ Definition spec_okb (i : input) (o : obs) : bool :=
       && forallb (fun p => text_okb (text_ct cs) data (fst p)) runs
   | IReader r, OReader created rc it1 r1 it2 r2 => reader_okb r created rc it1 r1 it2 r2
   | ISnap r, OSnap copied same c1 c2 ra orig => snap_okb r copied same c1 c2 ra orig
+  | ISnapList r, OSnapList same c1 c2 orig => snaplist_okb r same c1 c2 orig
   | IEq ta ca tb cb, OEq e ne =>
       Bool.eqb e (ct_eqb ta tb && bytes_eqb (concat ca) (concat cb)) && Bool.eqb ne (negb e)
   | IMime ct, OMime echo r => ctype_eqb echo ct && survives ct r
@@ -265,6 +289,9 @@ Definition Spec (i : input) (o : obs) : Prop :=
       /\ Forall (fun p => TextOk (text_ct cs) data (fst p)) runs
   | IReader r, OReader created rc it1 r1 it2 r2 => ReaderSpec r created rc it1 r1 it2 r2
   | ISnap r, OSnap copied same c1 c2 ra orig => SnapSpec r copied same c1 c2 ra orig
+  | ISnapList r, OSnapList same c1 c2 orig =>
+      same = true /\ JoinedOk c1 (Ok (concat (sl_buf r))) /\ JoinedOk c2 (Ok (concat (sl_buf r)))
+      /\ JoinedOk orig (Ok (concat (if sl_tuple r then sl_buf r else apply_ops (sl_ops r) (sl_buf r))))
   | IEq ta ca tb cb, OEq e ne =>
       (e = true <-> CtSame ta tb /\ concat ca = concat cb) /\ ne = negb e
   | IMime ct, OMime echo r => echo = ct /\ exists ct', r = Ok ct' /\ CtSame ct' ct
